@@ -49,15 +49,30 @@ def vtext(v, ty):
     return repr(float(q))
 
 
-def render(prog, nested, dotted_mods, width):
+def utext(u):
+    return "[len]" if u in ("[len2]", "[len5]") else u
+
+
+def render(prog, nested, dotted_mods, width, incase=False):
     f = prog["first"]
+    units = {f["u"]} | {m["u"] for m in prog["mods"]}
+    pre = []
+    if "[len2]" in units:
+        pre.append("$unit len = 2 m")
+    if "[len5]" in units:
+        pre.append("$unit len = 5 m")
+    if incase:
+        # the whole program inside a selected clause of a case block
+        body = render(prog, nested, dotted_mods, width).split("\n")
+        body = [l for l in body if l and not l.startswith("$unit")]
+        return "\n".join(pre + ["@case true"] + ["   " + l for l in body] + ["@end"]) + "\n"
     ind = " " * width if nested else ""
-    lines = ["g"] if nested else []
+    lines = pre + (["g"] if nested else [])
     s = f"{ind}x {f['ty']}"
     if not f["dec"]:
         s += f" = {vtext(f['v'], f['ty'])}"
     if f["u"]:
-        s += f" {f['u']}"
+        s += f" {utext(f['u'])}"
     lines.append(s)
     if f["const"]:
         lines.append(f"{ind}  !constant")
@@ -70,7 +85,7 @@ def render(prog, nested, dotted_mods, width):
             lines.append("g")
         s = f"{i2}{name}" + (f" {m['ty']}" if m["typed"] else "") + f" = {vtext(m['v'], m['ty'] if m['typed'] else f['ty'])}"
         if m["u"]:
-            s += f" {m['u']}"
+            s += f" {utext(m['u'])}"
         lines.append(s)
     return "\n".join(lines) + "\n"
 
@@ -117,17 +132,17 @@ def agrees(obs, exp, full):
         return True
     if obs.get("bad"):
         return False
-    if full and (obs["ty"] != exp["ty"] or obs["unit"] != exp["unit"]):
+    if full and (obs["ty"] != exp["ty"] or obs["unit"] != utext(exp["unit"])):
         return False
     return val_matches(obs["val"], exp["v"])
 
 
 def replay_record(rec):
     prog = rec["prog"]
-    variants = [(False, False, 2), (True, True, 2), (True, False, 3)]
+    variants = [(False, False, 2, False), (True, True, 2, False), (True, False, 3, False), (False, False, 2, True)]
     first = None
-    for nested, dotted, width in variants:
-        s = render(prog, nested, dotted, width)
+    for nested, dotted, width, incase in variants:
+        s = render(prog, nested, dotted, width, incase)
         obs = observe(s, nested)
         if agrees(obs, rec["ideal"], True):
             if not agrees(obs, rec["mach"], False):
@@ -162,11 +177,13 @@ def run(replay=None):
         runs.append(tlc(["int", "float", "bool", "str"], [(0, 1), (1, 1), (-2, 1), (5, 2)], ["", "m", "cm", "s"], 1))
         runs.append(tlc(["float"], [(0, 1), (-2, 1), (5, 2)], ["", "m", "cm"], 2))
         runs.append(tlc(["int", "bool"], [(0, 1), (300, 1)], ["", "m", "km"], 2))
+        runs.append(tlc(["float"], [(0, 1), (20, 1), (5463, 20)], ["K", "Cel", "[len2]", "[len5]", "m"], 2))
     else:
         runs.append(tlc(["int", "float", "bool", "str"], [(0, 1), (1, 1), (-2, 1), (5, 2), (300, 1)], ["", "m", "cm", "km", "s", "ms"], 1))
         runs.append(tlc(["float", "int"], [(0, 1), (-2, 1), (5, 2), (300, 1)], ["", "m", "cm", "s"], 2))
         runs.append(tlc(["float"], [(0, 1), (5, 2)], ["", "m", "cm"], 3))
         runs.append(tlc(["bool", "str"], [(0, 1)], [""], 3))
+        runs.append(tlc(["float", "int"], [(0, 1), (20, 1), (-2, 1), (5463, 20)], ["", "K", "Cel", "[len2]", "[len5]", "m", "cm"], 2))
     recs, seen = [], set()
     for r in runs:
         if r.violated:
